@@ -52,6 +52,14 @@ def place_key(body, op):
                 return None
             l, pr = q["l"], flow.norm_proj(q["proj"]) + pr
             continue
+        if df["kind"] == "assign" and df["rv"]["k"] == "agg" and df["rv"].get("agg") in ("closure", "coroutine", "tuple") and pr and pr[0][0] == "f" and \
+                isinstance(pr[0][1], int) and pr[0][1] < len(df["rv"]["ops"]):
+            # field i of an environment / tuple built here: the operand it was built from (an inlined `async fn` receives its arguments so)
+            q = flow.op_place(df["rv"]["ops"][pr[0][1]])
+            if q is None:
+                return None
+            l, pr = q["l"], flow.norm_proj(q["proj"]) + pr[1:]
+            continue
         if df["kind"] == "call" and callee_def(df["term"]) in VIEW_CALLS and df["term"]["args"] and not pr:
             q = flow.op_place(df["term"]["args"][0])
             if q is None:
